@@ -8,8 +8,8 @@ from vlib import tlc, make_cfg, vh, workdir, write_ndjson, read_ndjson, Verdict,
 PID = "C10"
 
 
-def model(w, maxops, checked, invs, tag, names='{"t1", "t2"}', probe="FALSE", minops=0, simulate=None, seed=None, dkeys="{110, 111}"):
-    cfg = make_cfg("MC_Editor.cfg", {"MaxOps": maxops, "ThresholdChecked": checked, "Names": names, "ProbeRefusals": probe, "MinOps": minops, "DKeys": dkeys}, os.path.join(w, f"{tag}.cfg"), invariants=invs)
+def model(w, maxops, checked, invs, tag, names='{"t1", "t2"}', probe="FALSE", minops=0, simulate=None, seed=None, dkeys="{110, 111}", deep="FALSE"):
+    cfg = make_cfg("MC_Editor.cfg", {"MaxOps": maxops, "ThresholdChecked": checked, "Names": names, "ProbeRefusals": probe, "MinOps": minops, "DKeys": dkeys, "Deep": deep}, os.path.join(w, f"{tag}.cfg"), invariants=invs)
     if simulate:
         return tlc("Editor", cfg, f"c10-{tag}", workers=1, timeout=1700, simulate=simulate, depth=maxops + 2, seed=seed)
     return tlc("Editor", cfg, f"c10-{tag}", workers=10, timeout=1700)
@@ -78,6 +78,10 @@ def run(tier, seed):
     # added, signed, re-opened, added again, removed, ...)
     deep = model(w, 7, "TRUE", ["Emit"], "deep", names='{"t1"}', dkeys="{}")
     progs += deep.replays
+    # two levels: every program of up to 4 operations after a fixed prefix that builds targets -> d1 -> d2
+    # (targets held, added, removed and re-signed at the second level)
+    two = model(w, 9, "TRUE", ["Emit"], "deep2", names='{"t1", "t2"}', dkeys="{110}", deep="TRUE")
+    progs += two.replays
     if tier == "thorough":
         # long programs (12..25 operations over three targets and both delegated roles) by simulation
         lg = model(w, 25, "TRUE", ["Emit"], "long", names='{"t1", "t2", "t3"}', minops=12, simulate=400, seed=seed)
